@@ -29,7 +29,7 @@ Init == /\ S = Init0(Cfg, Dev) /\ n = 0
         /\ tVal = [t \in Topics |-> "none"] /\ joined = {} /\ rejected = {} /\ nUndl = 0 /\ bad = {}
 
 GT == {"A"}
-V(v) == [D EXCEPT !.o = "reg", !.t = "A", !.v = v]
+RegOp(v) == [D EXCEPT !.o = "reg", !.t = "A", !.v = v]
 MsgNames == {"m" \o ToString(i) : i \in 1..MaxM}
 Ops ==
     LET hs == DOMAIN S.h ss == DOMAIN S.subs rs == DOMAIN S.rel es == DOMAIN S.evh IN
@@ -43,7 +43,7 @@ Ops ==
   \cup (IF "unrelay" \in Alpha THEN {[D EXCEPT !.o = "unrelay", !.r = r] : r \in rs} ELSE {})
   \cup (IF "evh" \in Alpha /\ Len(S.evh) < MaxE THEN {[D EXCEPT !.o = "evh", !.h = h] : h \in hs} ELSE {})
   \cup (IF "evcancel" \in Alpha THEN {[D EXCEPT !.o = "evcancel", !.e = e] : e \in es} ELSE {})
-  \cup (IF "reg" \in Alpha THEN {V(v) : v \in Vals} ELSE {})
+  \cup (IF "reg" \in Alpha THEN {RegOp(v) : v \in Vals} ELSE {})
   \cup (IF "unreg" \in Alpha THEN {[D EXCEPT !.o = "unreg", !.t = "A"]} ELSE {})
   \cup (IF "pub" \in Alpha THEN {[D EXCEPT !.o = "pub", !.h = h, !.m = m] : h \in hs, m \in MsgNames} ELSE {})
   \cup (IF "publocal" \in Alpha THEN {[D EXCEPT !.o = "pub", !.h = h, !.m = m, !.mode = "local"] : h \in hs, m \in MsgNames} ELSE {})
